@@ -56,11 +56,15 @@ def _resolve(q, p):
     elif attr == "measurement":
         v = p.m
     elif attr == "tag":
-        v = p.tags
+        v = dict(p.tags)
+        for name in q.get("premaps", ()):
+            v = catalog.PREMAPS[name](v)
         if "key" in q:
             v = v[q["key"]]
     else:
-        v = p.fields
+        v = dict(p.fields)
+        for name in q.get("premaps", ()):
+            v = catalog.PREMAPS[name](v)
         if "key" in q:
             v = v[q["key"]]
     for name in q.get("maps", ()):
